@@ -3,9 +3,12 @@
 package props
 
 import (
-	"math/big"
-	"math"
 	"fmt"
+	"math"
+	"math/big"
+	"slices"
+	"sort"
+	"strings"
 	"time"
 
 	"github.com/tdakkota/docker-logql/internal/logql"
@@ -24,6 +27,7 @@ func genVectorRecs(r *vk.RNG, steps int, perStep int) []Rec {
 	var recs []Rec
 	val := 1
 	twins := r.Chance(1, 6)
+	blanks := r.Chance(1, 6)
 	sep := vk.Pick(r, []string{"\xff", "\x00", ",", "=", "\n", "\xfe", "\"", " "})
 	for s := 0; s < steps; s++ {
 		used := map[string]bool{}
@@ -33,6 +37,10 @@ func genVectorRecs(r *vk.RNG, steps int, perStep int) []Rec {
 			for _, k := range c11LabelNames {
 				if r.Chance(4, 5) {
 					l[k] = vk.Pick(r, []string{"x", "y", "z"})
+					if blanks {
+						// values that differ only in surrounding white space are different values
+						l[k] = vk.Pick(r, []string{"x", "x ", " x", "x\t", " ", "  ", "x\r"})
+					}
 				}
 			}
 			if twins && i < 2 {
@@ -247,6 +255,48 @@ func runC11(r *vk.Run) {
 		c.Count("large_vectors", 1)
 		c.Nontrivial(fmt.Sprintf("large|%d|%s", c.Idx, text))
 	})
+	// many series over several steps: whatever a step's samples are buffered in, step t's groups are
+	// made of step t's samples
+	r.Phase("largesteps", r.N(60, 6000), func(c *vk.Case) {
+		rng := c.Rng
+		n := rng.Range(33, 140)
+		steps := rng.Range(4, 12)
+		var recs []Rec
+		for st := 0; st < steps; st++ {
+			perm := rng.Perm(n)
+			for i := 0; i < n; i++ {
+				if rng.Chance(1, 10) {
+					continue // membership changes from step to step
+				}
+				l := map[string]string{"job": "j", "a": fmt.Sprintf("s%03d", i), "b": []string{"x", "y", "z"}[i%3]}
+				recs = append(recs, Rec{TS: metricT0 + int64(st)*4e9 + 5e8 + int64(i)*1e6, Line: fmt.Sprintf("v=%d", perm[i]*7-n+st*1000), Labels: l})
+			}
+		}
+		sortRecs(recs)
+		env := &MEnv{Recs: recs, Msg: env0.Msg, UnwrapKeeps: env0.UnwrapKeeps, CmpFalse: env0.CmpFalse, CmpFalseBool: env0.CmpFalseBool}
+		var expr MExpr = &VecAgg{Op: vk.Pick(rng, []string{"sum", "count", "min", "max", "avg", "topk", "bottomk"}), K: 2, Inner: c11Leaf(), Grouped: true, Group: []string{"b"}}
+		if rng.Chance(1, 3) {
+			expr = &VecAgg{Op: vk.Pick(rng, []string{"sum", "count", "max"}), Inner: expr}
+		}
+		text := expr.Text()
+		p := EvalP{Start: metricT0 + 4e9, End: metricT0 + int64(steps)*4e9, Step: 4 * time.Second}
+		for rep := 0; rep < 3; rep++ {
+			res, err := evalQuery(&MemQuerier{Recs: recs, ErrAfter: -1}, text, p)
+			c.Eval(1)
+			det := map[string]any{"query": text, "series": n, "steps": steps, "result": res}
+			if err != nil {
+				c.Fail("", "query failed: "+text+": "+err.Error(), det)
+				return
+			}
+			if m := compareMetric(expr, env, p, res, 1e-9); m != "" {
+				c.Fail("", fmt.Sprintf("%s over %d series x %d steps: %s", text, n, steps, m), det)
+				return
+			}
+			c.Count("large_multi_step_evaluations", 1)
+		}
+		c.Nontrivial(fmt.Sprintf("largesteps|%d|%s", c.Idx, text))
+	})
+	r.Require("large_multi_step_evaluations", 100)
 	// groups whose IEEE sum overflows: with only non-negative huge members the sum is +Inf in every
 	// operand order, so the expected value is unambiguous (avg/stddev are left out: a running mean
 	// need not overflow where sum/n does)
@@ -379,6 +429,195 @@ func runC11(r *vk.Run) {
 	})
 	r.Require("avg_groups_with_overflowing_sum", 50)
 
+	// input vectors with NaN members (unwrap of "NaN", which ParseFloat accepts). NaN has no rank, so only
+	// what every placement of NaN agrees on is demanded: top-k/bottom-k return min(k, n) series of the
+	// group, each an input series with its value and labels, and the non-NaN series among them are the
+	// best non-NaN series of the group. The input vector is the engine's own result for the leaf.
+	r.Phase("nanrank", r.N(600, 80000), func(c *vk.Case) {
+		rng := c.Rng
+		var recs []Rec
+		used := map[string]bool{}
+		val := 0
+		nn := 0
+		for i := 0; i < rng.Range(2, 9); i++ {
+			l := map[string]string{"job": "j", "a": vk.Pick(rng, []string{"x", "y"}), "b": vk.Pick(rng, []string{"p", "q", "r", "s", "t"})}
+			if used[labelKey(l)] {
+				continue
+			}
+			used[labelKey(l)] = true
+			val += rng.Range(1, 9)
+			v := fmt.Sprint(val - 12)
+			if rng.Chance(1, 3) {
+				v = "NaN"
+				nn++
+			}
+			recs = append(recs, Rec{TS: metricT0 + 5e8 + int64(rng.Intn(3000))*1e6, Line: "v=" + v, Labels: l})
+		}
+		sortRecs(recs)
+		leaf := c11Leaf().Text()
+		op := vk.Pick(rng, []string{"topk", "bottomk"})
+		k := vk.Pick(rng, []int{1, 2, 3, len(recs), len(recs) + 1})
+		byA := rng.Bool()
+		text := fmt.Sprintf("%s(%d, %s)", op, k, leaf)
+		if byA {
+			text = fmt.Sprintf("%s by (a) (%d, %s)", op, k, leaf)
+		}
+		if rng.Chance(1, 4) {
+			text = "count(" + text + ")"
+		}
+		T := metricT0 + 4e9
+		in, err := evalQuery(&MemQuerier{Recs: recs, ErrAfter: -1}, leaf, EvalP{Start: T, End: T})
+		res, err2 := evalQuery(&MemQuerier{Recs: recs, ErrAfter: -1}, text, EvalP{Start: T, End: T})
+		c.Eval(2)
+		det := map[string]any{"query": text, "records": recs, "input_vector": in, "result": res}
+		if err != nil || err2 != nil {
+			c.Fail("", fmt.Sprintf("query failed: %s: %v %v", text, err, err2), det)
+			return
+		}
+		if len(in.Series) != len(recs) {
+			c.Fail("", fmt.Sprintf("%s: %d series for %d records with distinct label sets", leaf, len(in.Series), len(recs)), det)
+			return
+		}
+		type member struct {
+			v   float64
+			key string
+		}
+		groups := map[string][]member{}
+		input := map[string]float64{}
+		for _, sr := range in.Series {
+			g := ""
+			if byA {
+				g = sr.Labels["a"]
+			}
+			groups[g] = append(groups[g], member{sr.Points[0].V, labelKey(sr.Labels)})
+			input[labelKey(sr.Labels)] = sr.Points[0].V
+		}
+		wantTotal := 0
+		for _, ms := range groups {
+			wantTotal += min(k, len(ms))
+		}
+		if strings.HasPrefix(text, "count(") {
+			if len(res.Series) != 1 || res.Series[0].Points[0].V != float64(wantTotal) {
+				c.Fail("", fmt.Sprintf("%s: result %v, the groups hold min(k,n) = %d series in total", text, res.Series, wantTotal), det)
+				return
+			}
+		} else {
+			got := map[string][]member{}
+			for _, sr := range res.Series {
+				lk := labelKey(sr.Labels)
+				iv, ok := input[lk]
+				v := sr.Points[0].V
+				if !ok || !(iv == v || (math.IsNaN(iv) && math.IsNaN(v))) {
+					c.Fail("", fmt.Sprintf("%s: returned series %s = %v is not an input series with its value (input: %v, present %v)", text, lk, v, iv, ok), det)
+					return
+				}
+				g := ""
+				if byA {
+					g = sr.Labels["a"]
+				}
+				got[g] = append(got[g], member{v, lk})
+			}
+			for g, ms := range groups {
+				if len(got[g]) != min(k, len(ms)) {
+					c.Fail("", fmt.Sprintf("%s: group %q returned %d series, it has %d members", text, g, len(got[g]), len(ms)), det)
+					return
+				}
+				var nums []float64
+				for _, m := range ms {
+					if !math.IsNaN(m.v) {
+						nums = append(nums, m.v)
+					}
+				}
+				sort.Float64s(nums)
+				if op == "topk" {
+					slices.Reverse(nums)
+				}
+				var gotNums []float64
+				for _, m := range got[g] {
+					if !math.IsNaN(m.v) {
+						gotNums = append(gotNums, m.v)
+					}
+				}
+				sort.Float64s(gotNums)
+				if op == "topk" {
+					slices.Reverse(gotNums)
+				}
+				for i, v := range gotNums {
+					if nums[i] != v {
+						c.Fail("", fmt.Sprintf("%s: group %q returns the numbers %v; wherever NaN is ranked, the numbers returned must be the best of %v", text, g, gotNums, nums), det)
+						return
+					}
+				}
+			}
+		}
+		c.Count("nan_rank_checks", 1)
+		if nn > 0 {
+			c.Count("vectors_with_nan_members", 1)
+			c.Nontrivial(fmt.Sprintf("nanrank|%d|%s", c.Idx, text))
+		}
+	})
+	r.Require("vectors_with_nan_members", 200)
+
+	// labels that are not strings inside the engine: `| json` keeps numbers and booleans typed. Groups
+	// and their values are counted here from the log lines themselves.
+	r.Phase("typed", r.N(400, 60000), func(c *vk.Case) {
+		rng := c.Rng
+		type row struct{ status, ok, lat, svc string }
+		var recs []Rec
+		var rows []row
+		for i := 0; i < rng.Range(3, 14); i++ {
+			rw := row{vk.Pick(rng, []string{"200", "404", "500", "-1"}), vk.Pick(rng, []string{"true", "false"}), vk.Pick(rng, []string{"0.5", "1.5", "2.25"}), vk.Pick(rng, []string{"a", "b"})}
+			rows = append(rows, rw)
+			recs = append(recs, Rec{TS: metricT0 + 5e8 + int64(i)*1e6, Labels: map[string]string{"job": "j"},
+				Line: fmt.Sprintf(`{"status":%s,"ok":%s,"lat":%s,"svc":%q,"n":%d}`, rw.status, rw.ok, rw.lat, rw.svc, i)})
+		}
+		names := []string{"status", "ok", "lat", "svc"}
+		by := vk.Subset(rng, names)
+		if len(by) == 0 {
+			by = []string{"status"}
+		}
+		inner := fmt.Sprintf(`sum by (%s) (count_over_time({job="j"} | json [4s]))`, strings.Join(by, ", "))
+		text := inner
+		switch rng.Intn(4) {
+		case 0:
+			text = fmt.Sprintf(`sum without (%s) (count_over_time({job="j"} | json [4s]))`, strings.Join(append([]string{"msg", "n", "job"}, complement(names, by)...), ", "))
+		case 1:
+			text = "topk(100, " + inner + ")"
+		case 2:
+			text = "max by (" + strings.Join(by, ", ") + ") (" + inner + ")"
+		}
+		T := metricT0 + 4e9
+		res, err := evalQuery(&MemQuerier{Recs: recs, ErrAfter: -1}, text, EvalP{Start: T, End: T})
+		c.Eval(1)
+		det := map[string]any{"query": text, "records": recs, "result": res}
+		if err != nil {
+			c.Fail("", "query failed: "+text+": "+err.Error(), det)
+			return
+		}
+		want := map[string]float64{}
+		for _, rw := range rows {
+			l := map[string]string{}
+			for _, k := range by {
+				l[k] = map[string]string{"status": rw.status, "ok": rw.ok, "lat": rw.lat, "svc": rw.svc}[k]
+			}
+			want[labelKey(l)]++
+		}
+		got := map[string]float64{}
+		for _, sr := range res.Series {
+			got[labelKey(sr.Labels)] = sr.Points[0].V
+		}
+		if len(got) != len(res.Series) || fmt.Sprint(got) != fmt.Sprint(want) {
+			det["expected"] = want
+			c.Fail("", fmt.Sprintf("%s: groups %v, the lines give %v", text, got, want), det)
+			return
+		}
+		c.Count("typed_label_groupings", 1)
+		if len(want) >= 2 {
+			c.Nontrivial(fmt.Sprintf("typed|%d|%s", c.Idx, text))
+		}
+	})
+	r.Require("typed_label_groupings", 300)
+
 	r.Require("distinct_nontrivial", 800)
 	r.Require("sort_orders_checked", 100)
 	r.Require("depth:3", 200)
@@ -400,4 +639,14 @@ func shapeSummary(e MExpr) string {
 		return va.Op + "/" + g
 	}
 	return "leaf"
+}
+
+func complement(all, part []string) []string {
+	var out []string
+	for _, a := range all {
+		if !slices.Contains(part, a) {
+			out = append(out, a)
+		}
+	}
+	return out
 }
